@@ -259,7 +259,15 @@ def apply_step(rng, ix, a, op):
         if res is not src and I.shares_storage(res, src):
             st.fails.append(("C06", "C06-shares-storage", "%s(copy=True) result shares row-id storage with its source" % op))
     st.post = I.to_json(new_ix)
-    got = I.dense_of(new_ix)
+    try:
+        got = I.dense_of(new_ix)
+    except Exception as e:    # entries that do not fit the declared shape: no dense array to speak of
+        st.fails.append(("C06", "C06-dense", "%s: the result (shape %s) does not stand for a dense array of that shape: %s: %s" % (
+            op, tuple(new_ix.shape), type(e).__name__, str(e)[:80])))
+        for p in I.wf_problems(new_ix):
+            st.fails.append(("C07", "C07-" + _wf_class(p), "after %s: %s" % (op, p)))
+        st.err = "ill-formed result"
+        return st, ix, a
     if st.expect_dense is not None and op not in ("slices1d", "queries"):
         exp = np.asarray(st.expect_dense)
         if got.shape != exp.shape or not np.array_equal(got, exp):
